@@ -235,7 +235,8 @@ def get(name):
 CODECS = ["US-ASCII", "ISO-8859-1", "Windows-1252", "UTF-8", "UTF-16", "UTF-16LE", "UTF-16BE", "UTF-32", "UTF-32LE", "UTF-32BE"]
 DELIMS = ["whole", "term", "lead8", "lead16"]
 # "ref-raw-of-cal": the RAW value of a parameter that also has a calibrator (raw 0 <-> calibrated 16), through an adjuster
-SOURCES = ["fixed", "fixed-odd", "lookup", "ref-raw-adj", "ref-cal", "ref-raw-of-cal"]
+# "ref-raw-bits": the length in BITS is the raw value itself (0..15: buffers shorter than a byte and not whole bytes)
+SOURCES = ["fixed", "fixed-odd", "lookup", "ref-raw-adj", "ref-cal", "ref-raw-of-cal", "ref-raw-bits"]
 
 
 def _term_hex(codec, order):
@@ -259,6 +260,8 @@ def _size_source(src, fixed_bits):
         return DYN("LENF", "true"), None
     if src == "ref-raw-of-cal":
         return DYN("LENF", "false", 8, 0), None
+    if src == "ref-raw-bits":
+        return DYN("LENF", "false", 1, 0), None
     raise KeyError(src)
 
 
@@ -298,6 +301,8 @@ def binary_template(src, off):
         size = DYN("LENF", "false", 3, 1)
     elif src == "ref-raw-of-cal":
         size = DYN("LENF", "false", 4, 0)
+    elif src == "ref-raw-bits":
+        size = DYN("LENF", "false", 1, 0)
     else:
         size = DYN("LENF", "true")
     lcal = DEFCAL(POLY((8, 1))) if src == "ref-cal" else DEFCAL(POLY((16, 0), (8, 1))) if src == "ref-raw-of-cal" else ""
